@@ -57,6 +57,24 @@ CMPOPS = {ast.LtE: ("__le__", "__ge__"), ast.Lt: ("__lt__", "__gt__"), ast.GtE: 
 DSL = ("Point", "Expression", "Function")
 
 
+NOTIMPL = "<NotImplemented>"
+REFLECTED = {"__lt__": "__gt__", "__gt__": "__lt__", "__le__": "__ge__", "__ge__": "__le__", "__eq__": "__eq__", "__ne__": "__ne__",
+             "__add__": "__radd__", "__sub__": "__rsub__", "__mul__": "__rmul__", "__truediv__": "__rtruediv__", "__pow__": "__rpow__"}
+
+
+def binary(interp, me, op, arg):
+    """`me <op> arg` as Python evaluates it: the method of the left operand; when it answers NotImplemented, the reflected method of the right
+    operand (if it is a DSL object); when that answers NotImplemented too, TypeError"""
+    got = interp.invoke(me, op, [arg])
+    if got is NOTIMPL or got == NOTIMPL:
+        r = REFLECTED.get(op)
+        if r and isinstance(arg, AObj) and interp.repo.cls(arg.cls).find_method(r) is not None and not (r == op and arg.cls == me.cls):
+            got = interp.invoke(arg, r, [me])
+        if got is NOTIMPL or got == NOTIMPL:
+            raise Raised("TypeError", "both operands answer NotImplemented")
+    return got
+
+
 class OpInterp(DictInterp):
     def __init__(self, repo, module, depth=0):
         super().__init__(module, depth)
@@ -266,6 +284,8 @@ class OpInterp(DictInterp):
                     return self.invoke(o, nm, args, kwargs)
                 if o is None and nm == "__hash__":
                     return AScalar(Rat(0), "int")
+                if o is not None and not isinstance(o, AObj) and len(e.args) == 1 and isinstance(self.ev(e.args[0], env), AObj):
+                    return NOTIMPL      # the special method of a built-in number / string does not know the DSL classes: it returns NotImplemented
             if isinstance(f, ast.Name):
                 r = self.repo.resolve_name(self.module, nm)
                 if isinstance(r, ast.FunctionDef):
